@@ -1,17 +1,222 @@
 (* Properties/C11.v — Annotation reconstructs, for any time, the child versions that were current.
+
    ONLY statements closed by [exact], Print Assumptions, and non-vacuity Examples.
-   Model: Annotate/Model.v; ground truth: C11/Spec.v ([current_at], [stamp]). *)
+   Model: Annotate/Model.v (compute_with = core.Compute with explicit map iteration order
+   [entries] and sort.Sort behaviour [sortf]; apply_updates_up_to = ApplyUpdatesUpTo).
+   Ground truth: C11/Spec.v — [stamp] (commit time when known, else timestamp), [current_at hist T]
+   (the last version in version order whose stamp is <= T).
+   [valid_order o ps entries]: entries is any permutation of the child-location map.
+   Every theorem holds for every value of osm.CommitInfoStart ([cis]), every threshold, every
+   filter, every iteration order. *)
 From Coq Require Import ZArith List Bool Permutation Sorted.
 From Verif Require Import Annotate.Model Annotate.SortProofs Annotate.Plans Annotate.Determinism
-  C11.Spec C11.Proofs.
+  C11.Spec C11.Proofs C12.Proofs.
 Import ListNotations.
 Open Scope Z_scope.
 
-(* 1. commit-time regime (all commit times of the child known, non-decreasing in version):
-      FindVisible returns exactly the version current at [at_] when it is visible, else nothing —
+(* 1. commit-time regime (commit times of the child known and non-decreasing in version):
+      FindVisible returns exactly the version current at [at_] if it is visible, else nothing —
       for every changeset id and every threshold. *)
 Theorem C11_find_visible_commit : forall cis cid at_ eps cl,
   forallb (commit_child cis) cl = true -> stamps_monotone cis cl = true ->
   find_visible cis cl cid at_ eps = visible_only (current_at cis cl at_).
 Proof. exact find_visible_commit. Qed.
 Print Assumptions C11_find_visible_commit.
+
+(* 2. "each child reference carries the version, changeset and location of the child that was
+      current when that parent version was committed" (commit-time regime; [set_ref c r] writes
+      version, changeset, lat, lon of c).  When that version is deleted the reference is left
+      alone — which can only happen with IgnoreInconsistency, see theorem 7. *)
+Theorem C11_annotate_child_current :
+  forall cis o ps hist entries sortf ps' results p par j r cl,
+  valid_order o ps entries ->
+  compute_with cis o ps hist entries sortf = Ok (ps', results) ->
+  nth_error ps p = Some par -> p_visible par = true ->
+  nth_error (p_refs par) j = Some r -> filtered_out (o_filter o) r = false ->
+  hist (r_id r) = HFound cl ->
+  forallb (commit_child cis) cl = true -> stamps_monotone cis cl = true ->
+  exists par' r',
+    nth_error ps' p = Some par' /\ nth_error (p_refs par') j = Some r' /\
+    r' = match visible_only (current_at cis cl (pstamp cis par)) with
+         | Some c => set_ref c r
+         | None => r
+         end.
+Proof. exact annotate_child_current. Qed.
+Print Assumptions C11_annotate_child_current.
+
+(* 2'. every regime: the reference carries exactly what FindVisible selects for this parent
+       (closest visible version in the threshold window, later ones only from the parent's
+       changeset, else the previous one if visible) *)
+Theorem C11_annotate_child_selected :
+  forall cis o ps hist entries sortf ps' results p par j r cl,
+  valid_order o ps entries ->
+  compute_with cis o ps hist entries sortf = Ok (ps', results) ->
+  nth_error ps p = Some par -> p_visible par = true ->
+  nth_error (p_refs par) j = Some r -> filtered_out (o_filter o) r = false ->
+  hist (r_id r) = HFound cl ->
+  exists par' r',
+    nth_error ps' p = Some par' /\ nth_error (p_refs par') j = Some r' /\
+    r' = match find_visible cis cl (p_changeset par) (pstamp cis par) (o_threshold o) with
+         | Some c => set_ref c r
+         | None => r
+         end.
+Proof. exact annotate_child_selected. Qed.
+Print Assumptions C11_annotate_child_selected.
+
+(* 3. "Deleted parent versions receive no annotations" (and no updates) *)
+Theorem C11_deleted_parent_untouched :
+  forall cis o ps hist entries sortf ps' results p par,
+  sort_spec less sortf ->
+  compute_with cis o ps hist entries sortf = Ok (ps', results) ->
+  nth_error ps p = Some par -> p_visible par = false ->
+  nth_error ps' p = Some par /\ nth_error results p = Some [].
+Proof. exact deleted_parent_untouched. Qed.
+Print Assumptions C11_deleted_parent_untouched.
+
+(* 4. missing child history: every run fails unless IgnoreMissingChildren ... *)
+Theorem C11_missing_history_error :
+  forall cis o ps hist entries sortf p par j r,
+  valid_order o ps entries ->
+  nth_error ps p = Some par -> nth_error (p_refs par) j = Some r ->
+  filtered_out (o_filter o) r = false -> hist (r_id r) = HNotFound -> o_ignore_missing o = false ->
+  exists e, compute_with cis o ps hist entries sortf = Err e.
+Proof. exact missing_history_error. Qed.
+Print Assumptions C11_missing_history_error.
+
+(* 5. ... and the typed NoHistoryError is reported only for such a child, option off *)
+Theorem C11_no_history_error_typed :
+  forall cis o ps hist entries sortf fid,
+  compute_with cis o ps hist entries sortf = Err (ENoHistory fid) ->
+  o_ignore_missing o = false /\ hist fid = HNotFound /\ exists locs, In (fid, locs) entries.
+Proof. exact no_history_error_typed. Qed.
+Print Assumptions C11_no_history_error_typed.
+
+(* 6. no visible child at a visible parent: every run fails unless IgnoreInconsistency ... *)
+Theorem C11_no_visible_child_error :
+  forall cis o ps hist entries sortf p par j r cl,
+  valid_order o ps entries ->
+  nth_error ps p = Some par -> p_visible par = true -> nth_error (p_refs par) j = Some r ->
+  filtered_out (o_filter o) r = false -> hist (r_id r) = HFound cl ->
+  find_visible cis cl (p_changeset par) (pstamp cis par) (o_threshold o) = None ->
+  o_ignore_incons o = false ->
+  exists e, compute_with cis o ps hist entries sortf = Err e.
+Proof. exact no_visible_child_error. Qed.
+Print Assumptions C11_no_visible_child_error.
+
+(* 7. ... and the typed NoVisibleChildError names a child and the time of a visible parent at
+      which FindVisible selects nothing (in the commit regime: the current version is deleted or
+      does not exist yet, by theorem 1), option off *)
+Theorem C11_no_visible_child_error_typed :
+  forall cis o ps hist entries sortf fid ts,
+  compute_with cis o ps hist entries sortf = Err (ENoVisibleChild fid ts) ->
+  o_ignore_incons o = false /\
+  exists locs cl p par,
+    In (fid, locs) entries /\ hist fid = HFound cl /\ nth_error ps p = Some par /\
+    p_visible par = true /\ ts = pstamp cis par /\
+    find_visible cis cl (p_changeset par) (pstamp cis par) (o_threshold o) = None.
+Proof. exact no_visible_child_error_typed. Qed.
+Print Assumptions C11_no_visible_child_error_typed.
+
+(* 8. updates_exact — PARTIAL.
+   Full statement (commit-time regime), not proved:
+     the update list of parent p contains, for each reference index j (unfiltered, history cl,
+     selected version s), exactly one update child_update ck j for every version ck of cl with
+     c_vidx s < c_vidx ck that is committed no later than the version current at the next parent
+     version, that version itself only if it was committed earlier than
+     (commit time of the next parent - threshold); all later versions when p is the last version;
+     and nothing else.
+   Proved: the loop of Compute emits exactly the visible versions at positions
+   start .. nextVersion-1 of the history, one update per location, in version order, nothing else
+   (closed form), and without IgnoreInconsistency all those versions are visible.
+   Missing: the arithmetic identification of [start] and [nextVersion] (next_version_index) with
+   the two current_at bounds above. *)
+Theorem C11_updates_exact_partial : forall cis o fid cl locs n k acc ups,
+  updates_loop cis o fid cl locs k n acc = Ok ups ->
+  ups = acc ++ flat_map (version_updates cis locs) (firstn n (skipn k cl)) /\
+  (o_ignore_incons o = false -> forall ck, In ck (firstn n (skipn k cl)) -> c_visible ck = true).
+Proof.
+  intros cis o fid cl locs n k acc ups H. split.
+  - exact (updates_loop_exact cis o fid cl locs n k acc ups H).
+  - intros Hi. exact (updates_loop_all_visible cis o fid cl locs n k acc ups Hi H).
+Qed.
+Print Assumptions C11_updates_exact_partial.
+
+(* 9. time_travel — PARTIAL.
+   Full statement (commit-time regime), not proved:
+     forall t, pstamp p <= t -> (next parent np exists -> t < pstamp np - threshold) ->
+     apply_updates_up_to t (annotated refs of p) (updates of p) = ApplyOk refs' _ and for every
+     unfiltered index j with history cl (stamps monotone, versions between visible):
+     refs'[j] carries current_at cl t.
+   Generic regime (time_travel_generic), not proved: refs'[j] carries
+     later (selected version) (current_at cl t).
+   Both are checked on the real implementation on every run by judgement 2 of C11/Check.v
+   (the time-travel oracle), for ~4000 (history, parent, t) triples per quick run.
+   Proved here, for all update lists and all t:
+   (a) ApplyUpdatesUpTo(t) succeeds when indices are in range, leaves exactly the updates later
+       than t pending (in order), and overwrites each reference by the applicable updates of its
+       index in list order;
+   (b) on a list ordered by (index, timestamp, version) — which C12 proves for every annotation
+       result — the reference ends up carrying the applicable update that is greatest for
+       (timestamp, version): the newest version stamped <= t; with no applicable update it is
+       unchanged.
+   Missing: that among the updates of index j the greatest one stamped <= t is current_at cl t
+   (needs theorem 8's missing part and monotone stamps). *)
+Theorem C11_time_travel_partial :
+  (forall is_rel t us refs,
+     (forall u, In u us -> u_timestamp u >? t = false -> (u_index u < length refs)%nat) ->
+     exists refs',
+       apply_updates_up_to is_rel t refs us = ApplyOk refs' (filter (fun u => u_timestamp u >? t) us) /\
+       length refs' = length refs /\
+       forall j r, nth_error refs j = Some r -> nth_error refs' j = Some (applied_ref is_rel t us j r)) /\
+  (forall is_rel t j us,
+     StronglySorted itv_le us -> key_functional us ->
+     forall r u, In u us -> applicable t j u = true ->
+     (forall u', In u' us -> applicable t j u' = true -> itv_le u' u) ->
+     let r' := applied_ref is_rel t us j r in
+     r_version r' = u_version u /\ r_changeset r' = u_changeset u /\ r_lat r' = u_lat u /\ r_lon r' = u_lon u) /\
+  (forall is_rel t j us r,
+     (forall u, In u us -> applicable t j u = false) -> applied_ref is_rel t us j r = r).
+Proof. split; [exact apply_exact|split; [exact applied_sorted_max|exact applied_none]]. Qed.
+Print Assumptions C11_time_travel_partial.
+
+(* ---- non-vacuity: the witness history of C12/Proofs.v (node 100: v1 before the way, v2 and v3
+   in the same second after it; commit-time regime) ---- *)
+Example C11_hyps_commit_regime :
+  forallb (commit_child w_cis) (to_child_list 100 w_versions) = true /\
+  stamps_monotone w_cis (to_child_list 100 w_versions) = true /\
+  valid_order w_opts w_parents w_entries.
+Proof. split; [vm_compute; reflexivity|split; [vm_compute; reflexivity|exact w_valid_order]]. Qed.
+
+(* the annotated way carries v1 (current at the way's commit), the updates are v2 then v3, and
+   travelling to a time after both leaves v3 = current_at, travelling to the way's own commit
+   time leaves v1 *)
+Example C11_instance :
+  exists ps' us,
+    compute_with w_cis w_opts w_parents w_hist w_entries (isort less) = Ok (ps', [us]) /\
+    map r_version (flat_map p_refs ps') = [1] /\
+    option_map c_version (current_at w_cis (to_child_list 100 w_versions) (w_t 3600)) = Some 1 /\
+    map u_version us = [2; 3] /\
+    (exists refs pend, apply_updates_up_to false (w_t 9000) (flat_map p_refs ps') us = ApplyOk refs pend
+                       /\ map r_version refs = [3]) /\
+    option_map c_version (current_at w_cis (to_child_list 100 w_versions) (w_t 9000)) = Some 3 /\
+    (exists refs pend, apply_updates_up_to false (w_t 3600) (flat_map p_refs ps') us = ApplyOk refs pend
+                       /\ map r_version refs = [1] /\ length pend = 2%nat).
+Proof.
+  eexists. eexists. split; [vm_compute; reflexivity|].
+  split; [vm_compute; reflexivity|]. split; [vm_compute; reflexivity|]. split; [vm_compute; reflexivity|].
+  split; [eexists; eexists; split; vm_compute; reflexivity|].
+  split; [vm_compute; reflexivity|].
+  eexists. eexists. split; [vm_compute; reflexivity|split; vm_compute; reflexivity].
+Qed.
+
+(* error instances: the same way referencing a node without history / with only a deleted version *)
+Example C11_instance_missing :
+  compute_with w_cis w_opts w_parents (fun _ => HNotFound) w_entries (isort less) = Err (ENoHistory 100).
+Proof. vm_compute. reflexivity. Qed.
+
+Example C11_instance_no_visible :
+  exists ts,
+  compute_with w_cis w_opts w_parents
+    (fun _ => HFound (to_child_list 100 [mkHver 1 11 (w_t 0) (w_t 0) 1 0 false false]))
+    w_entries (isort less) = Err (ENoVisibleChild 100 ts).
+Proof. eexists. vm_compute. reflexivity. Qed.
